@@ -29,7 +29,7 @@ sched)
   mkdir -p "$out/rw"
   # the rewriter is built without any overlay (it only needs go/packages)
   (cd "$H" && go build ${MODFILE:+-modfile="$MODFILE"} -o "$out/rewrite" ./cmd/rewrite)
-  entries=$("$out/rewrite" -repo "$REPO" -out "$out/rw" hash lexer)
+  entries=$("$out/rewrite" -repo "$REPO" -out "$out/rw" hash lexer file)
   cat > "$out/overlay-sched.json" <<EOF
 {"Replace": {${vs_entries} ${entries} "$dagdir/dag.go": "$out/dag_controlled.go"}}
 EOF
